@@ -16,7 +16,28 @@ VHDL_ASSUME = [
 
 C05_MODULES = ["contracts.core_models", "contracts.c09_arith", "contracts.c09_bounded", "contracts.c05_convert", "contracts.c05_format_cast", "contracts.c05_setters"]
 
+C13_MODULES = ["contracts.core_models", "contracts.c09_bounded", "contracts.c13_types", "contracts.c13_views"]
+
 PROPERTIES = {
+    "C13": {
+        "modules": C13_MODULES,
+        "level": "proof",
+        "explanation": "the two lazily caching metaclass __getitem__ functions (_BitVector, _TypeQualifier) are proved, for an arbitrary cache state (= any history of first uses), to look up and store exactly the normalised key, return the cached class on a hit, and on a miss create exactly the classes with the bases the statement prescribes; qualified-object views (slice, index, iteration, .unsigned/.signed/.bitvector) are proved to keep root and qualifier and to denote exactly the aliased bit range; a bounded sweep checks the real classes under random creation orders",
+        "assumptions": COMMON_ASSUME + [
+            "type(name, bases, ns) creates a fresh class that is a subclass of exactly the reflexive-transitive closure of bases (CPython data model)",
+            "recursive uses K[...] inside __getitem__ denote the canonical class of their parameters (induction on the nesting rank of the parameter: Unsigned[n] -> Unsigned, BitVector[n] -> BitVector -> base)",
+            "the caches _SubTypes are written by no other function (mechanical inventory: see C11)",
+            "generator __iter__ is executed eagerly (the consumer exhausts it)",
+            "_MetaArray.__getitem__ and Span element identity are covered by the bounded sweep / native checks only",
+        ],
+        "extra": ["contracts.c13_extra.lattice_sweep"],
+        "canaries": [
+            {"name": "iter-base-offset", "contract": "cohdl._core._type_qualifier:TypeQualifier.__iter__", "case": "BitVector.slice1", "file": "cohdl/_core/_type_qualifier.py",
+             "old": "_ref_spec=[*prev, Offset(offset + nr, [*base_offset])],", "new": "_ref_spec=[*prev, Offset(offset + nr, [])],"},
+            {"name": "port-parent", "contract": "cohdl._core._type_qualifier:_TypeQualifier.__getitem__", "case": "Port[Signed[w],INPUT]-miss", "file": "cohdl/_core/_type_qualifier.py",
+             "old": "                                cls[Signed, direction],\n", "new": "                                cls[Unsigned, direction],\n"},
+        ],
+    },
     "C05": {
         "modules": C05_MODULES,
         "level": "proof",
